@@ -10,10 +10,10 @@ import (
 // ---------------------------------------------------------------- small builder helpers
 
 type B struct {
-	P   *Prog
-	R   *base.Rand
-	nv  int // local variable counter
-	nd  int // declaration counter
+	P  *Prog
+	R  *base.Rand
+	nv int // local variable counter
+	nd int // declaration counter
 }
 
 func (b *B) v() string { b.nv++; return fmt.Sprintf("v%d", b.nv) }
@@ -32,7 +32,8 @@ func (b *B) stmt(text string, uses ...*Use) *Node {
 func q(p *Pkg) string { return "«" + p.Path + "»." }
 
 func useT(kind UseKind, t *Type, field string) *Use { return &Use{Kind: kind, T: t, Field: field} }
-func refT(t *Type, sub string) *Use                  { return &Use{Kind: UTypeRef, T: t, Sub: sub} }
+func refT(t *Type, sub string) *Use                 { return &Use{Kind: UTypeRef, T: t, Sub: sub} }
+
 // composite: the type is mentioned inside a composite type ([]T, [N]T, map[K]*T, ...T) of a variable declaration,
 // field, parameter/result or composite literal - still a use of the type there.
 func composite(u *Use) *Use {
@@ -67,7 +68,9 @@ func (b *B) tl(format string, uses ...*Use) *Line {
 	return b.line(format, uses...)
 }
 
-func (b *B) tstmt(format string, uses ...*Use) *Node { return &Node{Pre: []*Line{b.tl(format, uses...)}} }
+func (b *B) tstmt(format string, uses ...*Use) *Node {
+	return &Node{Pre: []*Line{b.tl(format, uses...)}}
+}
 
 // ---------------------------------------------------------------- declaring-package content
 
@@ -267,17 +270,17 @@ type Tmpl struct {
 
 // Env: what the declaring package offers for t.
 type Env struct {
-	New    *Func // NewT
-	List   *Func
-	Helper *Func // a function of t's package (any annotation mix)
-	Reset  *Func // a method of t (any annotation mix), pointer receiver
-	Val    *Func // a method with value receiver
+	New       *Func // NewT
+	List      *Func
+	Helper    *Func // a function of t's package (any annotation mix)
+	Reset     *Func // a method of t (any annotation mix), pointer receiver
+	Val       *Func // a method with value receiver
 	OtherPkg  *Pkg  // another declaring package imported by the using packages (its name can be taken by a local variable)
 	OtherFunc *Func // an unannotated function of that package (keeps the import used)
-	Pass   *Func // func PassT(x *T) *T of t's package (any annotation mix): used to nest uses inside one expression
-	Getter *Func // non-nil: values are obtained through this package-local helper (the file need not import the type's package)
-	AliasM *Func // a method declared with an alias of t as receiver type: func (r AlT) ViaAlias()  (nil unless hostile)
-	ParenM *Func // a method declared with a parenthesised receiver type: func (r (*T)) ViaParen()
+	Pass      *Func // func PassT(x *T) *T of t's package (any annotation mix): used to nest uses inside one expression
+	Getter    *Func // non-nil: values are obtained through this package-local helper (the file need not import the type's package)
+	AliasM    *Func // a method declared with an alias of t as receiver type: func (r AlT) ViaAlias()  (nil unless hostile)
+	ParenM    *Func // a method declared with a parenthesised receiver type: func (r (*T)) ViaParen()
 	PtrAliasM *Func // a method declared with an alias of *T as receiver: type PAlT = *T; func (r PAlT) ViaPtrAlias()
 }
 
@@ -419,12 +422,12 @@ func immTemplates() []Tmpl {
 	// statements that span several lines: the diagnostic is not on the statement's first line
 	ts = append(ts, Tmpl{Name: "assign-multi-line", Cat: IMM, Kind: "struct", NoImp: true, Make: func(b *B, t *Type, env *Env) []*Node {
 		x, a := acquire(b, t, env)
-		n := &Node{Pre: []*Line{b.line("_,"), b.line("\t" + x + ".F = 1, 2", useT(UFieldAssign, t, "F"))}}
+		n := &Node{Pre: []*Line{b.line("_,"), b.line("\t"+x+".F = 1, 2", useT(UFieldAssign, t, "F"))}}
 		return []*Node{a, n}
 	}})
 	ts = append(ts, Tmpl{Name: "assign-multi-line-two-targets", Cat: IMM, Kind: "struct", NoImp: true, Make: func(b *B, t *Type, env *Env) []*Node {
 		x, a := acquire(b, t, env)
-		n := &Node{Pre: []*Line{b.line(x+".G,", useT(UFieldAssign, t, "G")), b.line("\t" + x + ".F = 1, 2", useT(UFieldAssign, t, "F"))}}
+		n := &Node{Pre: []*Line{b.line(x+".G,", useT(UFieldAssign, t, "G")), b.line("\t"+x+".F = 1, 2", useT(UFieldAssign, t, "F"))}}
 		return []*Node{a, n}
 	}})
 	// result of a call, type assertion, map element
@@ -611,7 +614,7 @@ func useTemplates() []Tmpl {
 		c, u := callNew(t, env)
 		pf := q(t.Pkg) + env.Pass.Name
 		x := b.v()
-		return []*Node{b.stmt(x+" := func(p any, _ ...any) {}"), b.stmt(x+"("+pf+"("+c+"), "+q(t.Pkg)+env.Helper.Name+", "+c+"."+env.Reset.Name+")", u, &Use{Kind: UFuncRef, Fn: env.Pass, Call: true}, &Use{Kind: UFuncRef, Fn: env.Helper}, &Use{Kind: UMethodRef, Fn: env.Reset})}
+		return []*Node{b.stmt(x + " := func(p any, _ ...any) {}"), b.stmt(x+"("+pf+"("+c+"), "+q(t.Pkg)+env.Helper.Name+", "+c+"."+env.Reset.Name+")", u, &Use{Kind: UFuncRef, Fn: env.Pass, Call: true}, &Use{Kind: UFuncRef, Fn: env.Helper}, &Use{Kind: UMethodRef, Fn: env.Reset})}
 	}})
 	ts = append(ts, Tmpl{Name: "nested-multi-line-call", Cat: TONL, Kind: "struct", NoImp: true, Make: func(b *B, t *Type, env *Env) []*Node {
 		c, u := callNew(t, env)
